@@ -1,12 +1,23 @@
 #!/usr/bin/env python3
 """Cross-check of the Lean reference semantics (GJS.Spec.valid) against the independent Python `jsonschema`
 package.  Input: one JSON object per line {"id":…, "schema":…, "docs":[…]}; output: one line per input
-{"id":…, "verdicts":"1010…"} ('1' valid, '0' invalid, '?' the validator raised).
+{"id":…, "verdicts":"1010…"} ('1' valid, '0' invalid, '?' the validator raised, 'm' the schema mixes the draft-4 boolean and the draft-6 numeric form of exclusive bounds).
 Draft 4 is used when the schema uses the boolean form of exclusiveMinimum/Maximum, draft 7 otherwise.
 Formats are not asserted by jsonschema by default; the caller does not send schemas with `format`."""
 import json, sys, warnings
 warnings.filterwarnings("ignore")
 import jsonschema
+
+def has_num_exclusive(s):
+    if isinstance(s, dict):
+        for k, v in s.items():
+            if k in ("exclusiveMinimum", "exclusiveMaximum") and isinstance(v, (int, float)) and not isinstance(v, bool):
+                return True
+            if has_num_exclusive(v):
+                return True
+    elif isinstance(s, list):
+        return any(has_num_exclusive(x) for x in s)
+    return False
 
 def has_bool_exclusive(s):
     if isinstance(s, dict):
@@ -25,6 +36,10 @@ for line in sys.stdin:
         continue
     req = json.loads(line)
     schema = req["schema"]
+    if has_bool_exclusive(schema) and has_num_exclusive(schema):
+        # both drafts' spellings in one schema: no single jsonschema dialect expresses it ('m' = not compared)
+        print(json.dumps({"id": req["id"], "verdicts": "m" * len(req["docs"])}), flush=True)
+        continue
     cls = jsonschema.Draft4Validator if has_bool_exclusive(schema) else jsonschema.Draft7Validator
     out = []
     try:
